@@ -106,3 +106,30 @@ Fixpoint zts_eqb (a b : list (tensor Z)) : bool :=
                         && (length (data x) =? length (data y)) && zts_eqb a' b'
   | _, _ => false
   end.
+
+(* ---- additions for the source tie of CP_PLSR.predict / transform (component loops; exact in Z: no division) ---- *)
+(* a - b / a + b with NumPy's broadcast of a trailing-shape operand (X -= X_mean_, ... + Y_mean_) *)
+Definition is_suffix (s t : list nat) : bool := (length s <=? length t) && nat_list_eq s (skipn (length t - length s) t).
+Definition rbin_b (f : Z -> Z -> Z) (a b : tensor Z) : RZ :=
+  if is_suffix (shape b) (shape a)
+  then Ok (tabulate (shape a) (fun idx => f (zget a idx) (zget b (skipn (ndim a - ndim b) idx))))
+  else Err.
+Definition rzeros (es : list Z) : RZ :=
+  match fold_right (fun e acc => match acc, znat e with Some l, Some n => Some (n :: l) | _, _ => None end) (Some []) es with
+  | Some s => Ok (tabulate s (fun _ => 0%Z)) | None => Err end.
+(* M[:, c] (total: the box keeps c inside the matrix) and T.index_update(M, T.index[:, c], v) *)
+Definition zcol (M : tensor Z) (c : Z) : tensor Z := tabulate [nth 0 (shape M) 0] (fun idx => zget M [nth 0 idx 0; Z.to_nat c]).
+Definition rset_col (c : Z) (M v : tensor Z) : RZ :=
+  match shape M, shape v, znat c with
+  | [n; k], [n'], Some j =>
+      if (n =? n') && (j <? k) then Ok (tabulate [n; k] (fun idx => if nth 1 idx 0 =? j then zget v [nth 0 idx 0] else zget M idx)) else Err
+  | _, _, _ => Err
+  end.
+Definition zrange (a b : Z) : list Z := map (fun k => (a + Z.of_nat k)%Z) (seq 0 (Z.to_nat (b - a))).
+Definition r_multi_mode_dot (t : tensor Z) (Ms : list (tensor Z)) (modes : list Z) : RZ :=
+  match fold_right (fun e acc => match acc, znat e with Some l, Some n => Some (n :: l) | _, _ => None end) (Some []) modes with
+  | Some ms => if length ms =? length Ms then multi_mode_dot ZR t Ms (Some ms) None false else Err
+  | None => Err
+  end.
+Definition r_outer (ts : list (tensor Z)) : RZ := outer ZR ts.
+Definition zt_eqb1 (a b : tensor Z) : bool := zts_eqb [a] [b].
